@@ -632,6 +632,7 @@ def emit(w, desc, stream):
 
 def generate(rng, tier, outdir):
     w = CaseWriter(outdir, IMPORTS, CASE_TYPES)
+    w.SHARD = 40          # smaller shards: the case literals are large, the shards are compiled in parallel
     n_valid = 110 if tier == "quick" else 1500
     n_mal = 60 if tier == "quick" else 500
     work_cap = 700 if tier == "quick" else 4000
